@@ -276,6 +276,18 @@ class Model:
         return any(g == self.ids(opt) for opt in options)
 
     def check_histories(self, where):
+        try:
+            self._check_histories(where)
+        except (AttributeError, KeyError, TypeError, ValueError) as e:
+            import traceback
+
+            tb = traceback.extract_tb(e.__traceback__)
+            if not any("/sqlalchemy/" in f.filename for f in tb[-3:]):
+                raise                       # harness bug, not the library
+            self.viol("history-access-raises:" + type(e).__name__,
+                      f"reading AttributeState.history {where} raised {type(e).__name__}: {str(e)[:120]}")
+
+    def _check_histories(self, where):
         for name, o in self.objs.items():
             st = self.inspect(o)
             attrs = ("name", "n") if self.kind[name] == "p" else ("v",)
@@ -900,6 +912,12 @@ def flush_and_check(ctx, rig, s, m, main):
             s.rollback()
             return
         raise
+    except Exception as e:
+        # every sequence is a valid program (none of them ever makes the unchanged library
+        # raise): a flush that fails did not persist the difference
+        m.viol("flush-raises:" + type(e).__name__, f"flush raised {type(e).__name__}: {str(e)[:140]}")
+        s.rollback()
+        return
     # ---- histories are reset
     for name, o in m.objs.items():
         if o not in s:
